@@ -286,7 +286,21 @@ where
         Value::Float(f) => quote!(#f),
         Value::Int(i) => {
             let i = i.as_i64();
-            quote!(#i)
+            // An integer literal is also a valid Float and a valid ID (its decimal string).
+            let scalar_name = ty
+                .as_scalar_id()
+                .map(|scalar_id| query.schema.get_scalar(scalar_id).name.as_str());
+            match (scalar_name, i) {
+                (Some("Float"), Some(i)) => {
+                    let f = i as f64;
+                    quote!(#f)
+                }
+                (Some("ID"), Some(i)) => {
+                    let id = i.to_string();
+                    quote!(#id.to_string())
+                }
+                _ => quote!(#i),
+            }
         }
         Value::Enum(en) => ty
             .as_enum_id()
